@@ -441,4 +441,210 @@ theorem foldl_LInv (n : Nat) (nbrs : Nat → List Nat) (dist : Nat → Nat → D
 
 end once
 
+/-! ## reachability: every defined reachability has a core witness listed earlier -/
+section reach
+set_option linter.unusedSectionVars false
+variable {D : Type} [LT D] [DecidableLT D]
+
+/-- `r` is explained by a core sample listed in `out` that has `x` in range:
+`r = max(core(o), dist(x, o))` -/
+def Wit (nbrs : Nat → List Nat) (dist : Nat → Nat → D) (out : List (Entry D)) (x : Nat) (r : D) : Prop :=
+  ∃ o ∈ out, ∃ c, o.core = some c ∧ x ∈ nbrs o.index ∧ r = fmax c (dist x o.index)
+
+theorem Wit_append (nbrs : Nat → List Nat) (dist : Nat → Nat → D) (out : List (Entry D)) (x : Nat) (r : D)
+    (e : Entry D) (h : Wit nbrs dist out x r) : Wit nbrs dist (out ++ [e]) x r := by
+  obtain ⟨o, ho, c, h1, h2, h3⟩ := h
+  exact ⟨o, List.mem_append_left _ ho, c, h1, h2, h3⟩
+
+/-- `listed`: a listed sample's reachability is explained by the entries *before* it;
+`pend`: the provisional reachability of a sample not yet processed is explained by the entries so far -/
+structure RInv (nbrs : Nat → List Nat) (dist : Nat → Nat → D) (s : State D) : Prop where
+  listed : ∀ p e, s.out[p]? = some e → ∀ r, e.reach = some r → Wit nbrs dist (s.out.take p) e.index r
+  pend : ∀ j, isProcessed s.processed j = false → ∀ r, getReach s.pts j = some r → Wit nbrs dist s.out j r
+
+theorem RInv_list (nbrs : Nat → List Nat) (dist : Nat → Nat → D) (s : State D) (h : RInv nbrs dist s)
+    (j : Nat) (hj : isProcessed s.processed j = false) (pts' : List (Pt D))
+    (hp : ∀ k, getReach pts' k = getReach s.pts k) (sd : List Nat) (c : Option D) :
+    RInv nbrs dist { pts := pts', processed := s.processed.set j true, seeds := sd,
+                     out := s.out ++ [{ index := j, core := c, reach := getReach pts' j }] } := by
+  constructor
+  · intro p e he r hr
+    simp only at he ⊢
+    rcases Nat.lt_trichotomy p s.out.length with hlt | heq | hgt
+    · rw [List.getElem?_append_left hlt] at he
+      rw [List.take_append_of_le_length (Nat.le_of_lt hlt)]
+      exact h.listed p e he r hr
+    · subst heq
+      rw [List.getElem?_append_right (Nat.le_refl _)] at he
+      simp at he
+      subst he
+      simp only at hr ⊢
+      rw [List.take_append_of_le_length (Nat.le_refl _), List.take_length]
+      rw [hp j] at hr
+      exact h.pend j hj r hr
+    · rw [List.getElem?_eq_none (by simp; omega)] at he
+      exact absurd he (by simp)
+  · intro k hk r hr
+    simp only at hk hr ⊢
+    apply Wit_append
+    apply h.pend k _ r (by rw [← hp k]; exact hr)
+    cases hb : isProcessed s.processed k
+    · rfl
+    · rw [(isProcessed_set _ _ _).mpr (Or.inr hb)] at hk
+      exact absurd hk (by simp)
+
+theorem getReach_setReach_cases (pts : List (Pt D)) (j k : Nat) (r r' : D)
+    (h : getReach (setReach pts j r) k = some r') : (k = j ∧ r' = r) ∨ getReach pts k = some r' := by
+  by_cases e : j = k
+  · subst e
+    by_cases hl : j < pts.length
+    · rw [getReach_setReach_self pts j r hl] at h
+      exact Or.inl ⟨rfl, (Option.some.inj h).symm⟩
+    · have : setReach pts j r = pts := by
+        unfold setReach
+        rw [List.getElem?_eq_none (by omega)]
+      rw [this] at h
+      exact Or.inr h
+  · rw [getReach_setReach_ne pts j k r e] at h
+    exact Or.inr h
+
+theorem getSeeds_pend (nbrs : Nat → List Nat) (dist : Nat → Nat → D) (i : Nat) (c : D)
+    (processed : List Bool)
+    (out : List (Entry D)) (eo : Entry D) (heo : eo ∈ out) (hei : eo.index = i) (hec : eo.core = some c) :
+    ∀ (l : List Nat), (∀ j ∈ l, j ∈ nbrs i) →
+    ∀ (ps : List (Pt D) × List Nat),
+      (∀ k, isProcessed processed k = false → ∀ r, getReach ps.1 k = some r → Wit nbrs dist out k r) →
+      let res := l.foldl (fun (ps : List (Pt D) × List Nat) j =>
+          let r := fmax c (dist j i)
+          match getReach ps.1 j with
+          | none => (setReach ps.1 j r, ps.2 ++ [j])
+          | some s => if r < s then (setReach ps.1 j r, ps.2) else ps) ps
+      ∀ k, isProcessed processed k = false → ∀ r, getReach res.1 k = some r → Wit nbrs dist out k r := by
+  intro l
+  induction l with
+  | nil => intro _ ps h; exact h
+  | cons j l ih =>
+    intro hl ps h
+    simp only [List.foldl_cons]
+    apply ih (fun k hk => hl k (List.mem_cons_of_mem _ hk))
+    have hj : j ∈ nbrs i := hl j (List.mem_cons_self ..)
+    have hset : ∀ k, isProcessed processed k = false → ∀ r,
+        getReach (setReach ps.1 j (fmax c (dist j i))) k = some r → Wit nbrs dist out k r := by
+      intro k hkp r hk
+      rcases getReach_setReach_cases _ _ _ _ _ hk with ⟨e1, e2⟩ | e
+      · subst e1; subst e2
+        exact ⟨eo, heo, c, hec, by rw [hei]; exact hj, by rw [hei]⟩
+      · exact h k hkp r e
+    split
+    · exact hset
+    · split
+      · exact hset
+      · exact h
+
+/-- `get_seeds` for the sample `j` just listed (last entry of `out`, core distance `cd`) keeps `RInv` -/
+theorem getSeeds_RInv (nbrs : Nat → List Nat) (dist : Nat → Nat → D) (j : Nat) (cd : D)
+    (s : State D) (h : RInv nbrs dist s)
+    (hlast : ∃ eo ∈ s.out, eo.index = j ∧ eo.core = some cd) :
+    RInv nbrs dist
+      { pts := (getSeeds dist j cd (findNeighbors nbrs dist j) s.processed s.pts s.seeds).1,
+        processed := s.processed,
+        seeds := (getSeeds dist j cd (findNeighbors nbrs dist j) s.processed s.pts s.seeds).2,
+        out := s.out } := by
+  obtain ⟨eo, heo, hei, hec⟩ := hlast
+  refine ⟨h.listed, ?_⟩
+  have hl : ∀ k ∈ (findNeighbors nbrs dist j).filter (fun k => !isProcessed s.processed k), k ∈ nbrs j := by
+    intro k hk
+    exact (List.mergeSort_perm _ _).subset (List.mem_filter.mp hk).1
+  exact getSeeds_pend nbrs dist j cd s.processed s.out eo heo hei hec _ hl (s.pts, s.seeds) h.pend
+
+theorem seedStep_RInv (n : Nat) (nbrs : Nat → List Nat) (dist : Nat → Nat → D) (mp : Nat)
+    (s : State D) (h : SInv n s) (hr : RInv nbrs dist s) (j0 : Nat) (rest : List Nat)
+    (hs : s.seeds.mergeSort (fun a b => decide (b ≤ a)) = j0 :: rest) :
+    RInv nbrs dist (seedStep nbrs dist mp s (j0 :: rest) j0) := by
+  have hperm : (j0 :: rest).Perm s.seeds := hs ▸ List.mergeSort_perm _ _
+  have hsel : (j0 :: rest)[(argminPos s.pts rest 1 (0, j0)).1]? = some (argminPos s.pts rest 1 (0, j0)).2 := by
+    rcases argminPos_spec s.pts rest 1 (0, j0) with e | ⟨k, k1, k2⟩
+    · rw [e]; rfl
+    · rw [k2, Nat.add_comm]; simpa using k1
+  unfold seedStep
+  simp only [List.tail_cons]
+  generalize (argminPos s.pts rest 1 (0, j0)) = pj at hsel ⊢
+  have hjmem : pj.2 ∈ s.seeds := hperm.subset (List.mem_of_getElem? hsel)
+  obtain ⟨hjp, _, _⟩ := h.sok pj.2 hjmem
+  have base : ∀ c : Option D, RInv nbrs dist
+      { pts := setCore s.pts pj.2 c, processed := s.processed.set pj.2 true,
+        seeds := (j0 :: rest).eraseIdx pj.1,
+        out := s.out ++ [{ index := pj.2, core := c, reach := getReach (setCore s.pts pj.2 c) pj.2 }] } :=
+    fun c => RInv_list nbrs dist s hr pj.2 hjp _ (fun k => getReach_setCore s.pts pj.2 k c) _ c
+  split
+  · rename_i cd hc
+    have := getSeeds_RInv nbrs dist pj.2 cd _ (base (some cd))
+      ⟨_, List.mem_append_right _ (List.mem_singleton_self _), rfl, rfl⟩
+    simpa [hc] using this
+  · rename_i hc
+    have := base none
+    simpa [hc] using this
+
+theorem seedLoop_RInv (n : Nat) (nbrs : Nat → List Nat) (dist : Nat → Nat → D) (mp : Nat)
+    (hrange : ∀ i, ∀ j ∈ nbrs i, j < n) :
+    ∀ fuel (s : State D), SInv n s → RInv nbrs dist s → RInv nbrs dist (seedLoop nbrs dist mp fuel s) := by
+  intro fuel
+  induction fuel with
+  | zero => intro s _ h; exact h
+  | succ fuel ih =>
+    intro s h hr
+    unfold seedLoop
+    split
+    · exact hr
+    · rename_i j0 rest hs
+      exact ih _ (seedStep_SInv n nbrs dist mp hrange s h j0 rest hs)
+        (seedStep_RInv n nbrs dist mp s h hr j0 rest hs)
+
+theorem outerStep_RInv (n : Nat) (nbrs : Nat → List Nat) (dist : Nat → Nat → D) (mp : Nat)
+    (hrange : ∀ i, ∀ j ∈ nbrs i, j < n) (s : State D) (i : Nat) (hi : i < n) (h : LInv n s)
+    (hr : RInv nbrs dist s) : RInv nbrs dist (outerStep nbrs dist mp n s i) := by
+  unfold outerStep
+  split
+  · exact hr
+  · rename_i hp
+    have hp' : isProcessed s.processed i = false := by simpa using hp
+    simp only
+    split
+    · rename_i cd hc
+      have l1 := LInv_list n s h i hp' hi (setCore s.pts i (some cd))
+        (by rw [length_setCore]; exact h.ptlen) [] (some cd) (getReach (setCore s.pts i (some cd)) i)
+      have s1 : SInv n _ := ⟨l1, List.nodup_nil, fun j hj => absurd hj List.not_mem_nil⟩
+      have s2 := getSeeds_SInv n nbrs dist hrange i cd _ s1
+      have r1 := RInv_list nbrs dist s hr i hp' (setCore s.pts i (some cd))
+        (fun k => getReach_setCore s.pts i k (some cd)) [] (some cd)
+      have r2 := getSeeds_RInv nbrs dist i cd _ r1
+        ⟨_, List.mem_append_right _ (List.mem_singleton_self _), rfl, rfl⟩
+      have r3 := seedLoop_RInv n nbrs dist mp hrange (n + 1) _ s2 r2
+      simpa [hc] using r3
+    · rename_i hc
+      have r1 := RInv_list nbrs dist s hr i hp' (setCore s.pts i none)
+        (fun k => getReach_setCore s.pts i k none) s.seeds none
+      simpa [hc] using r1
+
+theorem foldl_RInv (n : Nat) (nbrs : Nat → List Nat) (dist : Nat → Nat → D) (mp : Nat)
+    (hrange : ∀ i, ∀ j ∈ nbrs i, j < n) :
+    ∀ k, k ≤ n → RInv nbrs dist ((List.range k).foldl (outerStep nbrs dist mp n) (init n)) := by
+  intro k
+  induction k with
+  | zero =>
+    intro _
+    simp only [List.range_zero, List.foldl_nil]
+    constructor
+    · intro p e he; simp [init] at he
+    · intro j _ r hr
+      simp [init, getReach, List.getElem?_replicate] at hr
+      split at hr <;> simp at hr
+  | succ k ih =>
+    intro hk
+    rw [List.range_succ, List.foldl_append]
+    exact outerStep_RInv n nbrs dist mp hrange _ k (by omega) (foldl_LInv n nbrs dist mp hrange k (by omega)).1
+      (ih (by omega))
+
+end reach
+
 end LinfaSpec.Optics
